@@ -23,3 +23,39 @@ pub fn rfc_coef(s: &[u8], i: usize, w: usize) -> u32 {
     let shift = w * (per - 1 - (i % per));
     (byte >> shift) & ((1u32 << w) - 1)
 }
+
+/// hash-sigs private key parameter bytes: (height code << 4) | winternitz code, 0xff terminates.
+/// Returns (levels, total height) or None for an empty / invalid list. `hook_h2` admits the 4-leaf
+/// test height (LMS type 1) that exists only under --cfg hbs_lms_verif.
+pub fn ref_param_bytes(pb: &[u8; 8], hook_h2: bool) -> Option<(usize, u32)> {
+    let mut levels = 0usize;
+    let mut total = 0u32;
+    let mut i = 0;
+    while i < 8 {
+        let b = pb[i];
+        if b == 0xff {
+            break;
+        }
+        let h = match b >> 4 {
+            1 if hook_h2 => 2,
+            5 => 5,
+            6 => 10,
+            7 => 15,
+            8 => 20,
+            9 => 25,
+            _ => return None,
+        };
+        let w = b & 0x0f;
+        if w < 1 || w > 4 {
+            return None;
+        }
+        levels += 1;
+        total += h;
+        i += 1;
+    }
+    if levels == 0 {
+        None
+    } else {
+        Some((levels, total))
+    }
+}
